@@ -71,3 +71,39 @@ ENGINES = [
     {'name': 'E3', 'path': 'vlib/smt.py', 'kind_free_text': 'AST -> SMT lemmas / inductive steps, z3 cross-checked with cvc5',
      'serves_properties': []},
 ]
+
+POOL_FUNCS = ['billiard.pool.Pool.__init__', 'Pool._create_worker_process', 'Pool.apply_async', 'Pool._map_async', 'Pool.imap',
+              'Pool.imap_unordered', 'Pool._get_tasks', 'TaskHandler.body', 'ResultHandler._make_methods(on_ack,on_ready,on_state_change)',
+              'ResultHandler._process_result', 'ResultHandler.handle_event', 'Pool._maintain_pool', 'Pool._join_exited_workers',
+              'Pool._repopulate_pool', 'Pool._avail_index', 'Pool.on_job_process_lost', 'Pool.mark_as_worker_lost',
+              'ApplyResult.*', 'MapResult.*', 'IMapIterator.*', 'IMapUnorderedIterator.*', 'billiard.einfo.ExceptionInfo']
+POOL_ASSUME = [
+    'environment stubs (harness/world.py): fake Process/Popen/SimpleQueue/Value/Event context, integer clock bound to pool.monotonic, '
+    'pool._kill/os.killpg/os.getpgid/time.sleep bound to the world',
+    'pool.human_status / error / debug / warning replaced by recorders (str.format on a symbolic int realises it)',
+    'worker stubs emit exactly the message grammar established for the real Worker.workloop under C03: per task ACK then one READY; '
+    'a worker dies only mid-task or between jobs',
+    'pipes deliver whole messages in FIFO order (C13 owns framing)',
+]
+
+SPECS['C04'] = dict(
+    level='other',
+    explanation='Solver-based: CrossHair executes the real pool supervision and result-dispatch code inside a stubbed process world; '
+                'exit status, clock advances, lost-worker timeout and the order of ticks / result handling / worker progress are '
+                'solver variables; a monitor written from the statement checks who is reported lost, when, and that the pool is restored.',
+    functions=POOL_FUNCS,
+    bounds={'quick': 'pool of 2; 4 events after the death, each preceded by a clock advance in [0,205]; status in [-64,255]; '
+                     'lost_worker_timeout in [1,100]; kinds apply/map/imap/imap_unordered',
+            'thorough': 'same with 5 events'},
+    outside=['more than two workers / more than two concurrently running jobs', 'real processes and pipes', 'float clocks'],
+    assumptions=POOL_ASSUME + ['A-drain: a message already in the result pipe is read before lost_worker_timeout elapses'],
+    trusted_base=TRUST,
+    obligations=(
+        parts(ch('mid-task-death', 'harness.c04', 'h_mid', 'worker dies mid-task with any status: its job and only its job is lost, '
+                 'not before the timeout, reported on every handle kind, pool restored', timeout=(240, 1500)), 8)
+        + parts(twin('mid-task-death', 'harness.c04', 'h_mid_twin', 'a run in which the loss is reported exists'), 8)
+        + parts(ch('exit-after-work', 'harness.c04', 'h_after', 'worker exits between jobs with any status (result handled before or '
+                   'after): nothing is ever reported lost and the job completes with its real result', timeout=(240, 1500)), 4)
+        + parts(twin('exit-after-work', 'harness.c04', 'h_after_twin', 'a run in which the worker exits exists'), 4)
+    ),
+)
